@@ -136,6 +136,8 @@ func (b *Reader) readErr() error {
 // also returns an error explaining why the read is short. The error is
 // ErrBufferFull if n is larger than b's buffer size.
 func (b *Reader) Peek(n int) ([]byte, error) {
+	b.lastByte = -1
+	b.lastRuneSize = -1
 	if n < 0 {
 		return nil, ErrNegativeCount
 	}
@@ -176,6 +178,8 @@ func (b *Reader) Read(p []byte) (n int, err error) {
 		if len(p) >= len(b.buf) {
 			// Large read, empty buffer.
 			// Read directly into p to avoid copy.
+			// The buffer holds nothing that could be unread any more.
+			b.r, b.w = 0, 0
 			n, b.err = b.rd.Read(p)
 			if n > 0 {
 				b.lastByte = int(p[n-1])
@@ -316,6 +320,8 @@ func (b *Reader) Buffered() int { return b.w - b.r }
 // ReadBytes or ReadString instead.
 // ReadSlice returns err != nil if and only if line does not end in delim.
 func (b *Reader) ReadSlice(delim byte) (line []byte, err error) {
+	b.lastByte = -1
+	b.lastRuneSize = -1
 	// Look in buffer.
 	if i := bytes.IndexByte(b.buf[b.r:b.w], delim); i >= 0 {
 		line1 := b.buf[b.r : b.r+i+1]
@@ -472,12 +478,18 @@ func (b *Reader) ReadString(delim byte) (line string, err error) {
 
 // WriteTo implements io.WriterTo.
 func (b *Reader) WriteTo(w io.Writer) (n int64, err error) {
+	b.lastByte = -1
+	b.lastRuneSize = -1
 	n, err = b.writeBuf(w)
 	if err != nil {
 		return
 	}
 
 	if r, ok := b.rd.(io.WriterTo); ok {
+		if b.r == b.w {
+			// The buffer holds nothing that could be unread any more.
+			b.r, b.w = 0, 0
+		}
 		m, err := r.WriteTo(w)
 
 		if m > 0 {
